@@ -182,7 +182,20 @@ pub fn run(report: &Report, thorough: bool) -> Evidence {
                 let mut o = cfgs[idx % cfgs.len()].clone();
                 o.xdg = xdg.clone();
                 let prefix = &prefixes[idx / cfgs.len()];
-                let mut ctx = Ctx::new(&o).expect("ctx");
+                // every second job reaches its configuration through update_engine from a context that was
+                // created with the four options inverted (a live context must honour the new options)
+                let mut ctx = if idx % 2 == 1 {
+                    let mut inv = o.clone();
+                    inv.psugg = !o.psugg;
+                    inv.english = !o.english;
+                    inv.smart = !o.smart;
+                    inv.ansi = !o.ansi;
+                    let mut c = Ctx::new(&inv).expect("ctx");
+                    c.apply(&Ev::Update(Box::new(o.clone()))).expect("update_engine");
+                    c
+                } else {
+                    Ctx::new(&o).expect("ctx")
+                };
                 ctx.with_pre = !lists;
                 let mut d = Dfs { ctx, avro: &avro, report, alphabet, checked: 0, events: 0, text: String::new(), lists, samples: &samples, part: name };
                 if d.type_str(prefix) {
